@@ -196,8 +196,9 @@ def evaluate(payload):
                 i = 0
                 while i < min(len(got), len(exp)) and got[i] == exp[i]:
                     i += 1
+                tk = (got[i] if i < len(got) else (exp[i] if i < len(exp) else "[end")).split("(")[0].split(":")[0].lstrip("[").rstrip("]")
                 res["fail"] = (
-                    "tokens-differ",
+                    "tokens-differ:" + tk,
                     {"pragma_at_line": pl, "first_difference_index": i, "with_pragma": got[i : i + 3], "expected_shifted": exp[i : i + 3]},
                 )
                 break
@@ -252,7 +253,7 @@ def classify(key, sig, detail):
         return sig, f"inserting a pragma line changes reports it does not name ({sig.split(':', 1)[1]}): not the shifted failures minus the suppressed ones"
     if sig.startswith("reported-on-pragma-line"):
         return sig, f"a failure is reported on the pragma line itself ({sig.split(':', 1)[1]})"
-    if sig == "tokens-differ":
+    if sig.startswith("tokens-differ"):
         return sig, "the document does not parse as if the pragma line had been deleted (tokens differ beyond the one-line shift)"
     return sig, f"pragma contract broken: {sig}"
 
